@@ -82,10 +82,18 @@ class Subprocess(object):
             # dispatcher, as it may have side effects for a given
             # dispatcher (eg. call handle_listener_state_change for
             # event listener processes)
-            if dispatcher.readable():
-                dispatcher.handle_read_event()
-            if dispatcher.writable():
-                dispatcher.handle_write_event()
+            try:
+                if dispatcher.readable():
+                    dispatcher.handle_read_event()
+                if dispatcher.writable():
+                    dispatcher.handle_write_event()
+            except asyncore.ExitNow:
+                raise
+            except:
+                # same guard as the main loop puts around dispatcher events:
+                # an error while draining one channel must not propagate out
+                # of finish()/reap() and end supervisord
+                dispatcher.handle_error()
 
     def write(self, chars):
         if not self.pid or self.killing:
